@@ -240,7 +240,7 @@ class SegRun:
         self.rep.notes.append(f"{what}: {res['behaviours']} behaviours / {res['steps']} steps replayed on the real code, {res['comparisons']} comparisons, {len(res['drifts'])} drifts, {nviol} with violations, {res['wall_s']:.1f}s")
         return res
 
-    def explore(self, seed, runs, steps, wprog, rprog, w=7, readers=3, crash_pct=3, what="explore"):
+    def explore(self, seed, runs, steps, wprog, rprog, w=7, readers=3, crash_pct=3, what="explore", controls=False):
         tr = os.path.join(cb.WORK, f"trace_{self.rep.pid}_{seed}.ndjson")
         res = seg_json(["explore", "--seed", str(seed), "--runs", str(runs), "--steps", str(steps), "--w", str(w),
                         "--readers", str(readers), "--crash-pct", str(crash_pct), "--trace", tr,
@@ -274,8 +274,51 @@ class SegRun:
             else:
                 self.rep.traces += res["runs"]
                 self.rep.add_tlc(r, f"TLC trace validation of {res['events']} events ({res['runs']} runs)")
+                if controls:
+                    self.trace_controls(tr, mod, cfg)
                 os.remove(tr)
         return res
+
+    def trace_controls(self, tr, mod, cfg):
+        """The binding is not vacuous: the accepted log with ONE recorded field corrupted, and with ONE hook's event
+        removed, must be rejected by the same trace specification."""
+        lines = open(tr).read().splitlines()
+        # first run only (up to the second Reset): fast
+        cut = [i for i, l in enumerate(lines) if '"a":"Reset"' in l]
+        first = lines[:cut[1]] if len(cut) > 1 else lines
+
+        def variant(name, f):
+            out = f(list(first))
+            if out is None:
+                return None
+            p = tr + "." + name
+            open(p, "w").write("\n".join(out) + "\n")
+            r = cb.tlc(mod, cfg, f"T_{self.rep.pid}_ctl", workers=1, timeout=300, env={"TRACE": p},
+                       java_opts=["-Xss1g", "-Dtlc2.tool.queue.IStateQueue=StateDeque"])
+            os.remove(p)
+            return bool(r.violated or "TRACE-REJECTED" in r.out or not r.ok)
+
+        def corrupt_field(ls):
+            for i, l in enumerate(ls):
+                e = json.loads(l)
+                if e["a"] == "RG1":
+                    e["v"] = (e["v"] + 2) % 65536        # the generation the reader says it loaded
+                    ls[i] = json.dumps(e, separators=(",", ":"))
+                    return ls
+            return None
+
+        def drop_hook(ls):
+            for i, l in enumerate(ls):
+                if json.loads(l)["a"] == "WOdd":         # the odd store goes unrecorded
+                    return ls[:i] + ls[i + 1:]
+            return None
+        for name, f, what in (("field", corrupt_field, "one loaded generation value altered"), ("hook", drop_hook, "the odd store's event removed")):
+            rej = variant(name, f)
+            if rej is None:
+                continue
+            if not rej:
+                raise ToolError(f"trace validation control: the event log with {what} is still accepted - the trace specification constrains nothing there")
+            self.rep.notes.append(f"trace validation control: the accepted log with {what} is rejected by SegTrace, as it must")
 
     def finish(self):
         for f in sorted(set(self.foreign))[:5]:
@@ -455,7 +498,7 @@ def c02(tier, seed):
             raise ToolError(f"ShmSeg violates {r.violated} in cover {name}")
         run.replay(b, False, f"SC cover {name}")
     # T: random schedules
-    run.explore(seed, 30 if tier == "quick" else 400, 400 if tier == "quick" else 600, wprog, rprog, what="random schedules (W=7, 3 readers)")
+    run.explore(seed, 30 if tier == "quick" else 400, 400 if tier == "quick" else 600, wprog, rprog, what="random schedules (W=7, 3 readers)", controls=True)
     seq_induction(rep)
     seg_refines(rep, tier, wprog, rprog)
     unhooked_stress(run, 2 if tier == "quick" else 20)
